@@ -32,6 +32,20 @@ fn next_inst() -> i64 {
     })
 }
 
+thread_local! {
+    /// (task, key) pairs initialised in the current execution: an online guard, so that a value that
+    /// is re-created after its destruction fails the execution at once instead of looping through
+    /// destructors that resurrect each other
+    static INITS: std::cell::RefCell<std::collections::HashSet<(usize, u8)>> = std::cell::RefCell::new(Default::default());
+}
+fn note_init(key: u8) {
+    let me: usize = shuttle::current::me().into();
+    let fresh = INITS.with(|s| s.borrow_mut().insert((me, key)));
+    if !fresh {
+        panic!("thread-local {key} of task {me} was initialised a second time (resurrected after destruction)");
+    }
+}
+
 shuttle::lazy_static! {
     static ref DROP_LOCK: Mutex<u32> = Mutex::new(0);
 }
@@ -42,10 +56,10 @@ struct V2(i64);
 struct V3(i64);
 
 shuttle::thread_local! {
-    static TL0: V0 = { let i = next_inst(); body_event(E_INIT, 0, i); V0(i) };
-    static TL1: V1 = { let i = next_inst(); body_event(E_INIT, 1, i); V1(i) };
-    static TL2: V2 = { let i = next_inst(); body_event(E_INIT, 2, i); V2(i) };
-    static TL3: V3 = { let i = next_inst(); body_event(E_INIT, 3, i); V3(i) };
+    static TL0: V0 = { note_init(0); let i = next_inst(); body_event(E_INIT, 0, i); V0(i) };
+    static TL1: V1 = { note_init(1); let i = next_inst(); body_event(E_INIT, 1, i); V1(i) };
+    static TL2: V2 = { note_init(2); let i = next_inst(); body_event(E_INIT, 2, i); V2(i) };
+    static TL3: V3 = { note_init(3); let i = next_inst(); body_event(E_INIT, 3, i); V3(i) };
 }
 
 impl Drop for V0 {
@@ -155,6 +169,9 @@ fn touch(k: u8) {
 }
 
 pub fn run_thread(plan: Arc<Plan>, uid: usize) -> i64 {
+    if uid == 0 {
+        INITS.with(|s| s.borrow_mut().clear());
+    }
     body_event(E_START, uid as i64, 0);
     let me = &plan.threads[uid];
     let tid: usize = shuttle::thread::current().id().into();
